@@ -10,7 +10,7 @@ BOUNDED = [
     {'name': 'C17.lattice', 'script': 'bounded/c17_lattice.py', 'timeout': 900,
      'bound': '50 settings dictionaries: 3 hashes x valid/invalid sizes, 2 ciphers x key/nonce sizes, 2 KDFs x parameters (incl. non-powers of 2, 0), '
               'chunker bounds incl. 0, negative, float, string, min>max, unknown keys/adapters, mistyped sections; accepted => fresh Repository unlocks, '
-              'snapshots and restores 3 files; rejected => backend empty; add-key chains (independent/shared, depth 3): every key x every password; the restore runs in a THIRD fresh Repository object; the key chain includes an empty and a 71-byte password'},
+              'snapshots and restores 3 files; rejected => backend empty; add-key chains (independent/shared, depth 3): every key x every password; the restore runs in a THIRD fresh Repository object; the key chain includes an empty and a 71-byte password; two keys added with the SAME password (and KDF settings) as the key the adding object was unlocked with'},
 ]
 TRUSTED = [
     'vf symbolic executor (/verif/vf)', 'z3 5.1, cvc5 1.0.3',
